@@ -113,6 +113,10 @@ def run_generators():
             rc, out = sh([PY, script, REPO, os.path.join(COQ, "gen"), WORK], timeout=300,
                          env={"PYTHONPATH": REPO, "PYTHONHASHSEED": "0"})
             st[name] = {"rc": rc, "out": out[-2000:]}
+            if rc != 0:
+                # fail closed: a generator that cannot read the tree must not leave a stale table behind
+                gen = os.path.join(COQ, "gen", {"gen_tables": "GenHandlers.v", "gen_const": "GenConst.v"}[name])
+                open(gen, "w").write("(* generator failed *)\nDefinition generator_failed := tt tt.\n")
     return st
 
 
